@@ -4,7 +4,7 @@ copy every confirmed change that is not yet under /verif/seeded into /verif/seed
 import glob, json, os, shutil, sys
 src = sys.argv[1]
 n = 0
-for d in sorted(glob.glob(os.path.join(src, "C*.out*", "[mnpqr][0-9]"))):
+for d in sorted(glob.glob(os.path.join(src, "C*.out*", "[mnpqrs][0-9]"))):
     if not os.path.exists(d + "/verify.json"):
         continue
     ver = json.load(open(d + "/verify.json"))
